@@ -11,13 +11,17 @@ cd $WT || exit 2
 git checkout -q -- . ; git clean -fdq
 base=$(git rev-parse --short HEAD)
 git apply "$DIFF" || { echo "APPLY FAILED"; exit 2; }
-PYTHONPATH=$WT /venv/bin/python -m pytest -q -p no:cacheprovider --timeout=900 -x -q > /tmp/seed/$ID-$N.tests.log 2>&1
+PYTHONPATH=$WT /venv/bin/python -m pytest -q -p no:cacheprovider --timeout=900 -q > /tmp/seed/$ID-$N.tests.log 2>&1
 trc=$?
-if [ $trc -ne 0 ]; then
-  # rerun once (real-time tests are flaky under load)
-  PYTHONPATH=$WT /venv/bin/python -m pytest -q -p no:cacheprovider --timeout=900 -x -q > /tmp/seed/$ID-$N.tests.log 2>&1
+# the suite is real-time and flaky under load: re-run only the failed tests, up to 4 times
+for attempt in 1 2 3 4; do
+  [ $trc -eq 0 ] && break
+  failed=$(grep -E "^FAILED " /tmp/seed/$ID-$N.tests.log | sed -e 's/^FAILED //' -e 's/ - .*//' | tr '\n' ' ')
+  [ -z "$failed" ] && break
+  echo "re-running flaky candidates: $failed"
+  PYTHONPATH=$WT /venv/bin/python -m pytest -q -p no:cacheprovider --timeout=900 -q $failed > /tmp/seed/$ID-$N.tests.log 2>&1
   trc=$?
-fi
+done
 tests_tail=$(tail -1 /tmp/seed/$ID-$N.tests.log)
 PYTHONPATH=$WT timeout 300 /venv/bin/python $DEMO > /tmp/seed/$ID-$N.demo_with.log 2>&1; with_rc=$?
 git checkout -q -- . ; git clean -fdq
